@@ -94,7 +94,30 @@ func (a *clusterACLs) allowed(principal, host, resourceName string, resourceType
 	return hasAllow
 }
 
+// dominates reports whether this DENY entry cancels the given ALLOW entry
+// for an any-resource check: a DENY on a prefix dominates every ALLOW
+// literal or prefix starting with it, and a DENY on a literal dominates only
+// the ALLOW on that same literal. An ALLOW on the wildcard is only cancelled
+// by a DENY on the wildcard, which anyAllowed handles before calling this.
+func (a *acl) dominates(allow *acl) bool {
+	if allow.pattern == kmsg.ACLResourcePatternTypeLiteral && allow.resourceName == "*" {
+		return false
+	}
+	switch a.pattern {
+	case kmsg.ACLResourcePatternTypePrefixed:
+		return strings.HasPrefix(allow.resourceName, a.resourceName)
+	case kmsg.ACLResourcePatternTypeLiteral:
+		return allow.pattern == kmsg.ACLResourcePatternTypeLiteral && allow.resourceName == a.resourceName
+	default:
+		return false
+	}
+}
+
+// anyAllowed reports whether op is allowed on at least one resource of the
+// given type, mirroring Kafka's Authorizer.authorizeByResourceType: an ALLOW
+// entry only counts if no matching DENY entry dominates it.
 func (a *clusterACLs) anyAllowed(principal, host string, resourceType kmsg.ACLResourceType, op kmsg.ACLOperation) bool {
+	var allows, denies []*acl
 	for i := range a.acls {
 		acl := &a.acls[i]
 		if acl.resourceType != resourceType ||
@@ -103,9 +126,24 @@ func (a *clusterACLs) anyAllowed(principal, host string, resourceType kmsg.ACLRe
 			!acl.matchesOp(op) {
 			continue
 		}
-		if acl.permission == kmsg.ACLPermissionTypeAllow {
-			return true
+		switch acl.permission {
+		case kmsg.ACLPermissionTypeDeny:
+			if acl.pattern == kmsg.ACLResourcePatternTypeLiteral && acl.resourceName == "*" {
+				return false
+			}
+			denies = append(denies, acl)
+		case kmsg.ACLPermissionTypeAllow:
+			allows = append(allows, acl)
 		}
+	}
+nextAllow:
+	for _, allow := range allows {
+		for _, deny := range denies {
+			if deny.dominates(allow) {
+				continue nextAllow
+			}
+		}
+		return true
 	}
 	return false
 }
